@@ -189,3 +189,97 @@ pub fn run(w: &World, seed: u64, rng: &mut Rng, schedules: Vec<Value>, n: usize,
     let _ = std::fs::remove_file(&live_path);
     iroh_docs::verif::set_clock(0);
 }
+
+
+/// The same question through the store actor (C06 names `src/actor.rs`: the actor flushes the store when it has been idle
+/// for MAX_COMMIT_DELAY): writes through a real `SyncHandle`, then - in any combination - half a second and more of
+/// idleness and `flush_store()`, then the database file is copied without shutting anything down and the copy is
+/// opened.  The live states come from a twin store that runs the same calls directly.
+pub fn run_actor(w: &World, seed: u64, rng: &mut Rng, n: usize, dir: &Path, trace: &mut Trace, sum: &mut Summary) {
+    use iroh_docs::{actor::{OpenOpts, SyncHandle}, store::Store, Capability};
+    let rt = tokio::runtime::Builder::new_multi_thread().worker_threads(2).enable_all().build().unwrap();
+    let t = DocTable::new(w);
+    let d = t.real()[0];
+    let keys: &[&[u8]] = &[&[], &[0], &[0, 1], &[0, 255], &[1]];
+    let live_path = dir.join("storetx-actor-live.redb");
+    let twin_path = dir.join("storetx-actor-twin.redb");
+    let img_path = dir.join("storetx-actor-img.redb");
+    for i in 0..n {
+        let _ = std::fs::remove_file(&live_path);
+        let _ = std::fs::remove_file(&twin_path);
+        // the history: k writes, then idle and / or flush in one of four shapes
+        let k = 1 + rng.below(3);
+        let mut ops = vec![json!({"op":"import","d":d,"kind":"write"}), json!({"op":"open","d":d})];
+        for j in 0..k {
+            ops.push(json!({"op":"local","d":d,"a":1 + rng.below(2),"k":key_json(keys[rng.below(keys.len())]),"h":1 + (j as i64 % 2),"now":5 + j as u64}));
+        }
+        let tail: &[&str] = match i % 4 {
+            0 => &["idle", "flush"],
+            1 => &["flush"],
+            2 => &["idle"],
+            _ => &["flush", "idle"],
+        };
+        // twin: live state after every call (idle / flush change nothing a reader sees)
+        let mut live = vec![];
+        let mut kinds: Vec<Value> = vec![];
+        {
+            let mut twin = DocsRun::new(w, Some(twin_path.clone()));
+            let (d0, h0) = twin.observe_pub();
+            live.push(json!({"docs": d0, "hashes": h0}));
+            for op in &ops {
+                if let Some(ev) = rt.block_on(twin.exec(op)) {
+                    kinds.push(ev["ev"].clone());
+                    let (dd, hh) = twin.observe_pub();
+                    live.push(json!({"docs": dd, "hashes": hh}));
+                }
+            }
+            for tl in tail {
+                kinds.push(json!(if *tl == "flush" { "Flush" } else { "Idle" }));
+                live.push(live.last().unwrap().clone());
+            }
+        }
+        let mut all_ops = ops.clone();
+        for tl in tail {
+            all_ops.push(json!({"op": tl}));
+        }
+        trace.emit(json!({"ev":"Reset","run":i,"seed":seed,"ops":all_ops,"backend":"file","live":live,"kinds":kinds,"age":[0, 0],"counts":[],"via":"actor"}));
+        sum.add("histories", 1);
+        // the store under test, behind its actor
+        let res: Result<(), String> = rt.block_on(async {
+            let store = Store::persistent(&live_path).map_err(|e| e.to_string())?;
+            let h = SyncHandle::spawn(store, None, "c06".into());
+            let ns = t.id(d);
+            for a in 1..=2 {
+                h.import_author(w.author(a).clone()).await.map_err(|e| e.to_string())?;
+            }
+            h.import_namespace(Capability::Write(t.secret(d).unwrap().clone())).await.map_err(|e| e.to_string())?;
+            h.open(ns, OpenOpts::default()).await.map_err(|e| e.to_string())?;
+            for op in ops.iter().skip(2) {
+                iroh_docs::verif::set_clock(op["now"].as_u64().unwrap());
+                let key = crate::replica::key_of(&op["k"]);
+                let _ = h.insert_local(ns, w.author(op["a"].as_i64().unwrap()).id(), key.into(), w.hash(op["h"].as_i64().unwrap()), 1).await;
+            }
+            for tl in tail {
+                if *tl == "idle" {
+                    tokio::time::sleep(std::time::Duration::from_millis(750)).await;
+                } else {
+                    h.flush_store().await.map_err(|e| e.to_string())?;
+                }
+            }
+            // the process dies here: copy the file while the actor is still alive, then let it go
+            let img = image(w, &live_path, &img_path);
+            trace.emit(json!({"ev":"Img","i":kinds.len(),"kind":kinds.last().cloned().unwrap_or(json!("")),"res":"ok","opened":img["opened"],
+                              "docs":img["docs"],"hashes":img["hashes"]}));
+            sum.add("crash_images", 1);
+            let _ = h.shutdown().await;
+            Ok(())
+        });
+        if let Err(e) = res {
+            trace.emit(json!({"ev":"Stuck","what":e}));
+        }
+    }
+    for p in [&live_path, &twin_path, &img_path] {
+        let _ = std::fs::remove_file(p);
+    }
+    iroh_docs::verif::set_clock(0);
+}
